@@ -21,6 +21,12 @@ peer played by the harness, with in-process flaps at random instants
   wire-roundtrip / reestablish-wire   as in the `lnwallet` stream
   resync-stalled     the resumed exchange does not reach a state with nothing in flight
   mirror-quiescent   commitments of the two sides are not mirrored when nothing is in flight
+  dlp-answer / dlp-force-close / dlp-mark-durable   (`LV` lines: the last connection of a case gets
+                     a forged channel_reestablish) the peer claims — and proves with the matching
+                     revocation secret — a revocation height beyond Alice's local chain tail, and her
+                     link goes on / retransmits anything; asks for a force close (it would broadcast
+                     a revoked commitment); or the data-loss mark and the peer's commit point are not
+                     in her DATABASE at the moment OnChannelFailure is called (before any reply)
   htlc-lost / htlc-resolution / htlc-resurrected / htlc-duplicated / htlc-phantom / balance-exact
                      an irrevocably committed HTLC is neither present exactly once nor resolved
                      exactly once (settled iff Alice knows the preimage; Bob's balance moves by
@@ -29,6 +35,7 @@ peer played by the harness, with in-process flaps at random instants
 import LndModel.Prelude.Lines
 import LndModel.C03.Model
 import LndModel.C03.Wire
+import LndModel.C03.Dlp
 
 open LndModel LndModel.Lines LndModel.C03
 
@@ -91,6 +98,9 @@ structure St where
   bobProcessed : Nat := 0
   committedHtlcs : Nat := 0
   resolvedHtlcs : Nat := 0
+  forged : Nat := 0
+  forgedAhead : Nat := 0
+  forgedVerdicts : List (String × Nat) := []
 
 def mismatch (s : St) (detail : String) : IO St := do
   if s.caseMismatch < 3 then
@@ -413,6 +423,56 @@ def step (s : St) (line : String) : IO St := do
       -- the link noticed, while signing / syncing, that the harness is stopping it
       return { s with stopNoticed := s.stopNoticed + 1 }
     monitor s "link-failed" s!"Alice's link failed: {rest}"
+  | "LV" :: rest =>
+    -- a forged channel_reestablish handed to the real link: verdict, durable marks, what was sent
+    let mut s := { s with ops := s.ops + 1, forged := s.forged + 1 }
+    let res := resOf ws
+    let after := afterArrow ws
+    let msg := reestOfLine rest
+    let g (k : String) : String := (kv? after k).getD "-"
+    let sent := match g "sent" with
+      | "-" => []
+      | l => (l.splitOn ",").map kindOfMsg
+    if res == "timeout" then
+      return ← monitor s "resync-stalled" s!"the link neither fails nor completes the resynchronisation on {reestTok msg}"
+    let some a := s.skA | mismatch s "forged channel_reestablish without Alice's reloaded state"
+    -- (S) from the implementation's answers and her reloaded heights only
+    let proven := msg.remoteTail > a.lt && msg.point.isSome && msg.lastSecret == some (msg.remoteTail - 1)
+    if msg.remoteTail > a.lt then
+      s := { s with forgedAhead := s.forgedAhead + 1 }
+      if res != "failed" || !sent.isEmpty then
+        s ← monitor s "dlp-answer" s!"Alice's local chain tail is {a.lt}, the peer claims revocation height {msg.remoteTail} ({reestTok msg}): her link answers {res} sent={sent}"
+    if proven && g "action" == "forceclose" then
+      s ← monitor s "dlp-force-close" s!"the peer proves to be ahead (tail {a.lt}, claimed {msg.remoteTail}) and the link asks for a force close: a revoked commitment would be broadcast"
+    if proven && res == "failed" && g "action" != "forceclose" && !(g "dl" == "1" && g "lcp" == "ok") then
+      s ← monitor s "dlp-mark-durable" s!"the peer proves to be ahead; at the moment the failure is reported the database holds dl={g "dl"} lcp={g "lcp"} (data-loss mark + the peer's commit point must be durable before any reply)"
+    if msg.remoteTail > a.lt && msg.point.isNone && res == "failed" && g "action" != "forceclose" && g "borked" != "1" then
+      s ← monitor s "dlp-mark-durable" s!"a peer without data-loss-protect fields claims revocation height {msg.remoteTail} beyond Alice's tail {a.lt}; at the moment the failure is reported the channel is not marked borked in the database (borked={g "borked"})"
+    if (kv? rest "kind") == some "honest" && res != "proceed" then
+      s ← monitor s "link-failed" s!"Alice's link fails on the honest peer's channel_reestablish: {after}"
+    -- (X) the model's reaction of the link
+    let r := a.linkReact true false false msg
+    let implVerdict :=
+      if res == "proceed" then "proceed"
+      else if g "code" == "sync" && g "action" == "forceclose" then "forceClose"
+      else if g "code" == "recovery" && g "action" == "none" then
+        (if g "dl" == "1" then "dataLoss" else if g "borked" == "1" then "borked" else "failOnly")
+      else s!"other:{g "code"}/{g "action"}"
+    s := { s with forgedVerdicts := Id.run do
+             let k := implVerdict
+             match s.forgedVerdicts.find? (·.1 == k) with
+             | some _ => s.forgedVerdicts.map fun (x, n) => if x == k then (x, n + 1) else (x, n)
+             | none => s.forgedVerdicts ++ [(k, 1)] }
+    if r.verdict.toString != implVerdict then
+      s ← mismatch s s!"link verdict model={r.verdict.toString} impl={implVerdict} ({after.take 7}) msg={reestTok msg} state={repr a}"
+    else
+      let implMarks : Marks := { borked := g "borked" == "1",
+                                 dataLoss := if g "dl" == "1" then (if g "lcp" == "ok" then msg.point else some 1000000009) else none }
+      if implMarks != r.marks then
+        s ← mismatch s s!"durable marks at failure time model={repr r.marks} impl=borked={g "borked"} dl={g "dl"} lcp={g "lcp"}"
+      if modelKinds r.sent != sent then
+        s ← mismatch s s!"after the forged channel_reestablish the link sends {sent}, model {modelKinds r.sent} (state {repr a}, message {reestTok msg})"
+    return s
   | "Q" :: _ =>
     let mut s := { s with ops := s.ops + 1 }
     if resOf ws != "ok" then
@@ -436,7 +496,7 @@ def main : IO Unit := do
   IO.println s!"STAT lines={s.lines}"
   IO.println s!"STAT cases={s.cases}"
   IO.println s!"STAT evaluations={s.ops}"
-  IO.println s!"STAT nontrivial={s.mirrorChecks + s.syncChecks + s.retxAlice + s.htlcChecks + s.heightChecks}"
+  IO.println s!"STAT nontrivial={s.mirrorChecks + s.syncChecks + s.retxAlice + s.htlcChecks + s.heightChecks + s.forged}"
   IO.println s!"STAT link_flaps={s.flaps}"
   IO.println s!"STAT link_flaps_with_unread_mail={s.flapsUnread}"
   IO.println s!"STAT link_flaps_during_resync={s.flapsResync}"
@@ -455,6 +515,10 @@ def main : IO Unit := do
   IO.println s!"STAT link_wire_reestablish={s.wireReest}"
   IO.println s!"STAT link_messages_processed_by_peer={s.bobProcessed}"
   IO.println s!"STAT link_stop_noticed_while_signing={s.stopNoticed}"
+  IO.println s!"STAT link_forged_reestablish={s.forged}"
+  IO.println s!"STAT link_forged_peer_ahead={s.forgedAhead}"
+  for (k, v) in s.forgedVerdicts do
+    IO.println s!"STAT link_forged_verdict_{k}={v}"
   IO.println s!"STAT mismatches={s.mismatches}"
   IO.println s!"STAT monitor_failures={s.monitorFails}"
 
